@@ -204,6 +204,10 @@ def run(ctx):
                       headers=rng.choice(hdrs))
         if rng.random() < 0.05:
             del env["PATH_INFO"]
+        if rng.random() < 0.4:
+            # a server that offers a file wrapper (PEP 3333 optional)
+            from wsgiref.util import FileWrapper
+            env["wsgi.file_wrapper"] = FileWrapper
         # variables a server may leave out (PEP 3333 / CGI: optional)
         for key in ("REMOTE_ADDR", "QUERY_STRING", "SERVER_SOFTWARE",
                     "SERVER_PROTOCOL", "wsgi.errors"):
@@ -223,6 +227,7 @@ def run(ctx):
                   "clen": env.get("CONTENT_LENGTH"),
                   "ctype": env.get("CONTENT_TYPE"), "program": prog,
                   "callable_shape": shape,
+                  "file_wrapper": "wsgi.file_wrapper" in env,
                   "config": cfg,
                   "headers": {k: v[:40] for k, v in env.items()
                               if k.startswith("HTTP_")}}
